@@ -200,6 +200,9 @@ fn flag_sets(tier: Tier) -> Vec<PFlags> {
         PFlags { crlf: true, ..d.clone() },
         PFlags { multiline: true, max_count: Some(1), ..d.clone() },
         PFlags { multiline: true, crlf: true, ..d.clone() },
+        // adjacent matching lines are reported as one block under -U, so a
+        // limit >= 2 is where the printers' units can come apart (bb393c6)
+        PFlags { multiline: true, max_count: Some(2), ..d.clone() },
     ];
     if tier == Tier::Thorough {
         v.extend([
@@ -212,7 +215,6 @@ fn flag_sets(tier: Tier) -> Vec<PFlags> {
             PFlags { whole_line: true, multiline: true, ..d.clone() },
             PFlags { invert: true, crlf: true, ..d.clone() },
             PFlags { invert: true, max_count: Some(2), ..d.clone() },
-            PFlags { multiline: true, max_count: Some(2), ..d.clone() },
         ]);
     }
     v
